@@ -80,7 +80,9 @@ def run(idx: Index, rep: Report, tier: str) -> None:
     if fresh:
         v = norm(fresh[0].targets[0])
         calls = [c for c in walk_no_nested(pw.node) if isinstance(c, ast.Call) and call_name(c) == "substitute" and norm(c.func.value) == v]
-        ok = bool(calls) and all(len(c.args) == 2 and norm(c.args[0]) == "expression.arg(0)" and norm(c.args[1]) == "new_subs" for c in calls)
+        # the reduced map: the dictionary filled under the `all(v not in bound …)` test
+        reduced = {norm(a.targets[0].value) for i in walk_no_nested(pw.node) if isinstance(i, ast.If) and any(x in alls for x in ast.walk(i.test)) for st in i.body for a in ast.walk(st) if isinstance(a, ast.Assign) and isinstance(a.targets[0], ast.Subscript)}
+        ok = bool(calls) and bool(reduced) and all(len(c.args) == 2 and norm(c.args[0]) == "expression.arg(0)" and norm(c.args[1]) in reduced for c in calls)
         rep.check(ok, rule2, "the body is substituted under the reduced map", pw.loc(calls[0]) if calls else pw.loc(), construct=norm(calls[0]) if calls else "", detail="" if ok else "the quantifier body is not rewritten with the reduced map", function=pw.qualname)
 
     # ---------------------------------------------------------------- (3) top-down, no re-substitution
